@@ -47,6 +47,31 @@ impl RegistrationToken {
     }
 }
 
+#[cfg(feature = "verif_hooks")]
+impl RegistrationToken {
+    pub(crate) fn verif_inner(&self) -> TokenInner {
+        self.inner
+    }
+}
+
+#[cfg(feature = "verif_hooks")]
+impl<Data> LoopInner<'_, Data> {
+    pub(crate) fn verif_idles_pending(&self) -> (usize, bool) {
+        let pending = self.pending_action.get();
+        (
+            self.idles.borrow().len(),
+            matches!(pending, PostAction::Continue),
+        )
+    }
+}
+
+#[cfg(feature = "verif_hooks")]
+impl<'l, Data> LoopHandle<'l, Data> {
+    pub(crate) fn verif_inner(&self) -> &LoopInner<'l, Data> {
+        &self.inner
+    }
+}
+
 pub(crate) struct LoopInner<'l, Data> {
     pub(crate) poll: RefCell<Poll>,
     // The `Option` is used to keep slots of the slab occupied, to prevent id reuse
@@ -466,7 +491,18 @@ impl<'l, Data> EventLoop<'l, Data> {
         let events = {
             let poll = self.handle.inner.poll.borrow();
             loop {
+                #[cfg(feature = "verif_hooks")]
+                crate::verif::yield_point(
+                    crate::verif::Site::POLL_PRE,
+                    if timeout == Some(Duration::ZERO) {
+                        crate::verif::SiteKind::Normal
+                    } else {
+                        crate::verif::SiteKind::BlockingEntry
+                    },
+                );
                 let result = poll.poll(timeout);
+                #[cfg(feature = "verif_hooks")]
+                crate::verif::yield_point(crate::verif::Site::POLL_POST, crate::verif::SiteKind::BlockingExit);
 
                 match result {
                     Ok(events) => break events,
@@ -665,7 +701,11 @@ impl<'l, Data> EventLoop<'l, Data> {
     {
         let timeout = timeout.into();
         self.signals.stop.store(false, Ordering::Release);
+        #[cfg(feature = "verif_hooks")]
+        crate::verif::yield_point(crate::verif::Site::RUN_BEGAN, crate::verif::SiteKind::Normal);
         while !self.signals.stop.load(Ordering::Acquire) {
+            #[cfg(feature = "verif_hooks")]
+            crate::verif::yield_point(crate::verif::Site::RUN_CHECK, crate::verif::SiteKind::Normal);
             self.dispatch(timeout, data)?;
             cb(data);
         }
@@ -694,14 +734,26 @@ impl<'l, Data> EventLoop<'l, Data> {
         impl Wake for EventLoopWaker {
             fn wake(self: Arc<Self>) {
                 // Set the waker.
+                #[cfg(feature = "verif_hooks")]
+                crate::verif::yield_point(crate::verif::Site::BO_WAKE_PRE, crate::verif::SiteKind::Normal);
                 self.0.signal.future_ready.store(true, Ordering::Release);
+                #[cfg(feature = "verif_hooks")]
+                crate::verif::yield_point(crate::verif::Site::BO_WAKE_MID, crate::verif::SiteKind::Normal);
                 self.0.notifier.notify().ok();
+                #[cfg(feature = "verif_hooks")]
+                crate::verif::yield_point(crate::verif::Site::BO_WAKE_POST, crate::verif::SiteKind::Normal);
             }
 
             fn wake_by_ref(self: &Arc<Self>) {
                 // Set the waker.
+                #[cfg(feature = "verif_hooks")]
+                crate::verif::yield_point(crate::verif::Site::BO_WAKE_PRE, crate::verif::SiteKind::Normal);
                 self.0.signal.future_ready.store(true, Ordering::Release);
+                #[cfg(feature = "verif_hooks")]
+                crate::verif::yield_point(crate::verif::Site::BO_WAKE_MID, crate::verif::SiteKind::Normal);
                 self.0.notifier.notify().ok();
+                #[cfg(feature = "verif_hooks")]
+                crate::verif::yield_point(crate::verif::Site::BO_WAKE_POST, crate::verif::SiteKind::Normal);
             }
         }
 
@@ -723,6 +775,8 @@ impl<'l, Data> EventLoop<'l, Data> {
         self.signals.future_ready.store(true, Ordering::Release);
 
         while !self.signals.stop.load(Ordering::Acquire) {
+            #[cfg(feature = "verif_hooks")]
+            crate::verif::yield_point(crate::verif::Site::BO_SWAP_PRE, crate::verif::SiteKind::Normal);
             // If the future is ready to be polled, poll it.
             if self.signals.future_ready.swap(false, Ordering::AcqRel) {
                 // Poll the future and break the loop if it's ready.
@@ -732,6 +786,8 @@ impl<'l, Data> EventLoop<'l, Data> {
                 }
             }
 
+            #[cfg(feature = "verif_hooks")]
+            crate::verif::yield_point(crate::verif::Site::BO_SWAP_POST, crate::verif::SiteKind::Normal);
             // Otherwise, block on the event loop.
             self.dispatch_events(None, data)?;
             self.dispatch_idles(data);
@@ -836,7 +892,11 @@ impl LoopSignal {
     ///
     /// This is only useful if you are using the `EventLoop::run()` method.
     pub fn stop(&self) {
+        #[cfg(feature = "verif_hooks")]
+        crate::verif::yield_point(crate::verif::Site::SIG_STOP_PRE, crate::verif::SiteKind::Normal);
         self.signal.stop.store(true, Ordering::Release);
+        #[cfg(feature = "verif_hooks")]
+        crate::verif::yield_point(crate::verif::Site::SIG_STOP_POST, crate::verif::SiteKind::Normal);
     }
 
     /// Wake up the event loop
@@ -846,7 +906,11 @@ impl LoopSignal {
     /// ensures the event loop will terminate quickly if you specified a long
     /// timeout (or no timeout at all) to the `dispatch` or `run` method.
     pub fn wakeup(&self) {
+        #[cfg(feature = "verif_hooks")]
+        crate::verif::yield_point(crate::verif::Site::SIG_WAKE_PRE, crate::verif::SiteKind::Normal);
         self.notifier.notify().ok();
+        #[cfg(feature = "verif_hooks")]
+        crate::verif::yield_point(crate::verif::Site::SIG_WAKE_POST, crate::verif::SiteKind::Normal);
     }
 }
 
